@@ -2,10 +2,10 @@
 import re
 
 import anchors
-from core import (BA, call_matches, callee_paths, op_local, op_place, op_const, const_int, const_str, place_fields,
-                  str_consts)
+from core import (BA, FA, call_matches, callee_paths, op_local, op_place, op_const, const_int, const_str, place_fields,
+                  str_consts, fa_path_via)
 from rules import common, sqlc, txn
-from rules.C06 import backward_direct
+from rules.C06 import backward_direct, ok_result_blocks
 
 EXPLANATION = (
     "Static transaction-discipline rules that make the 60 s busy timeout effective: every SQL mutation is reachable "
@@ -48,6 +48,7 @@ def run(ctx):
     # rusqlite transactions in init
     init = prog.one(r"state::ProcessState::init")
     iba = BA.of(init)
+    ifa = FA.of(init)
     rt = iba.calls(r"rusqlite::Connection::transaction|rusqlite::transaction::<impl rusqlite::Connection>::transaction")
     rtb = iba.calls(r"rusqlite::Connection::transaction_with_behavior|rusqlite::transaction::<impl rusqlite::Connection>::transaction_with_behavior")
     execs = iba.calls(r"rusqlite::Connection::execute|rusqlite::transaction::Transaction::execute|<rusqlite::transaction::Transaction<'_> as core::ops::deref::Deref>::deref")
@@ -58,10 +59,12 @@ def run(ctx):
     ctx.floor("R16.1", "blocks of init that issue mutating SQL", len(wr), 5)
     for k, i in common.ordinal_keys([("Connection::transaction", i) for i in rt]):
         # a deferred transaction is harmful when a read can precede a write inside it (lock upgrade)
-        rs = [r for r in reads if iba.path([i], [r])]
+        # over feasible paths from entry (core.FA): when the choice between the deferred and the immediate start is
+        # re-split later on the same value (`match mode {A => transaction(), B => transaction_with_behavior(..)}; ..
+        # match mode {A => create .., B => read ..}`) the block path deferred-start -> read -> write does not exist
         up = None
-        for r in rs:
-            q = iba.path([r], wr)
+        for r in reads:
+            q = fa_path_via(ifa, [[i], [r]], wr)
             if q:
                 up = (r, q[-1])
         ctx.ob("R16.1", "init|%s|no-read-then-write-under-DEFERRED" % k, up is None, where=ctx.where(init, i),
@@ -152,9 +155,8 @@ def run(ctx):
     n = 0
     for k, (b, i, beh) in common.ordinal_keys([(b.key, (b, i, beh)) for b, i, beh in sites]):
         ba = BA.of(b)
-        # transaction value local: follow Result -> `?`/match -> ptx local(s) by direct taint
-        from core import taint
-        tl = taint(b, seeds={b.blocks[i]["term"]["dest"]["l"]}, mode="direct")
+        # transaction value local(s): from the Result of ProcessTransaction::new through `?`/match (_txn_locals)
+        tl = _txn_locals(b, b.blocks[i]["term"]["dest"]["l"])
         uses = []
         for j in ba.all_calls():
             t = b.blocks[j]["term"]
@@ -162,9 +164,15 @@ def run(ctx):
                 continue
             if any((op_local(a) in tl or any(x in tl for x in ba.ref_chain(op_local(a)))) for a in t["args"] if op_local(a) is not None):
                 uses.append(j)
-        writes_here = [j for j in uses if any(rec_writers.fullmatch(p) for p in callee_paths(b.blocks[j]["term"])) or
-                       (callee_paths(b.blocks[j]["term"]) and callee_paths(b.blocks[j]["term"])[0] in prog.bodies and
-                        any(rec_writers.fullmatch(x) for x in ctx.cg.reachable([callee_paths(b.blocks[j]["term"])[0]], site_filter=flt, indirect=False)))]
+        def reaches_writer(j):
+            cps = callee_paths(b.blocks[j]["term"])
+            if any(rec_writers.fullmatch(p) for p in cps):
+                return True
+            # a local function, or a closure value built in this body and called with the transaction
+            # (`helper(env, |ptx, f| ..)` after the helper was spliced in: `body(&mut ptx, &mut f)`)
+            roots = ([cps[0]] if cps and cps[0] in prog.bodies else []) + [k for k in common.closure_call_targets(b, j) if k in prog.bodies]
+            return bool(roots) and any(rec_writers.fullmatch(x) for x in ctx.cg.reachable(roots, site_filter=flt, indirect=False))
+        writes_here = [j for j in uses if reaches_writer(j)]
         if not writes_here or beh not in ("Immediate", "Exclusive"):
             # Deferred transactions must not write at all (R16.2); nothing to commit
             continue
@@ -193,7 +201,9 @@ def run(ctx):
                  not call_matches(b.blocks[j]["term"], r"state::ProcessTransaction::.*")]
         M = set(commits) | set(setc) | set(moved)
         # non-error exits: Ok returns of the body (or plain returns for non-Result bodies), reachable after a write
-        goals = common.ok_returns(b) or ba.returns()
+        # (the Ok value may be built for a local first - the result of a spliced helper returned as the tail
+        # expression: `_r = Ok(..); .. _0 = move _r` - so look for the Ok aggregates that *reach* the return place)
+        goals = ok_result_blocks(b) or ba.returns()
         # also the end of the transaction's scope: approximate by the body's normal exits
         starts = [w for w in writes_here if w not in M]
         residuals = {brk for (_, brk, _, _) in ba.try_sites() if brk is not None}
@@ -204,3 +214,34 @@ def run(ctx):
                "records are written under this transaction but a normal exit is reachable without committing: they are rolled back when the transaction is dropped",
                witness={"path": p[:20] if p else None})
     ctx.floor("R16.6", "transactions that write records", n, 6)
+
+
+def _txn_locals(b, dest):
+    """Locals of `b` that hold the transaction begun by the ProcessTransaction::new call whose result is `dest` (the
+    value, a reference to it, or a wrapper of it): direct value flow from `dest`, kept only where the local's type
+    can contain a transaction - its type mentions ProcessTransaction, or it is an aggregate (struct / tuple / closure /
+    coroutine) built from such a local. Direct flow alone also follows the *error* half of the Result through
+    `?` (Try::branch -> residual -> from_residual -> the enclosing Result, and on through a caller's `?` when the
+    opening code is a spliced helper), which never holds the transaction and ends up tainting the whole body."""
+    from core import taint, closure_sites
+    tl = taint(b, seeds={dest}, mode="direct")
+
+    def typed(l):
+        return l is not None and l >= 0 and "state::ProcessTransaction" in b.locals[l]
+    keep = {l for l in tl if typed(l)}
+    keep.add(dest)
+    ba = BA.of(b)
+    changed = True
+    while changed:
+        changed = False
+        for blk in b.blocks:
+            for s in blk["stmts"]:
+                if s["s"] != "assign" or s["place"]["p"] or s["rv"]["k"] != "agg" or s["place"]["l"] in keep:
+                    continue
+                if any(op_local(o) is not None and (op_local(o) in keep or any(x in keep for x in ba.ref_chain(op_local(o)))) for o in s["rv"]["ops"]):
+                    d = s["place"]["l"]
+                    ty = b.locals[d]
+                    keep.add(d)
+                    keep.update(l for l in taint(b, seeds={d}, mode="direct") if l >= 0 and b.locals[l].replace("&mut ", "").replace("&", "") == ty)
+                    changed = True
+    return keep
